@@ -1,6 +1,6 @@
 """Checks C07 (format→parse round trip), C08 (format renders what lookup reports), C09 (parse)."""
 import concurrent.futures
-from .common import (Check, canon, ub_site, enclosing_function, run_lines, I64MIN, I64MAX, NCPU)
+from .common import (align_zone_lines, Check, canon, ub_site, enclosing_function, run_lines, I64MIN, I64MAX, NCPU)
 from . import civil as C
 from . import zones as Z
 from . import tzif as T
@@ -54,7 +54,9 @@ def run_fmt_blocks(chk, exe, blocks, label):
         for bi in g:
             starts.append(len(lines)); lines.extend(blocks[bi])
         if not lines: return [], []
-        return run_model_fmt(lines), run_lines(exe, lines, block_starts=starts)
+        m, i = run_model_fmt(lines), run_lines(exe, lines, block_starts=starts)
+        align_zone_lines(m, i)
+        return m, i
     mo = [None] * len(blocks); io = [None] * len(blocks)
     with concurrent.futures.ThreadPoolExecutor(max_workers=len(groups)) as ex:
         for g, (m, i) in zip(groups, ex.map(work, groups)):
